@@ -12,6 +12,8 @@ import (
 	"math/rand"
 	"os"
 	"runtime"
+	"sync"
+	"sync/atomic"
 	"time"
 )
 
@@ -167,30 +169,28 @@ func verifYield() {
 	runtime.Gosched()
 }
 
-var verifJitterOn = -1
+var (
+	verifJitterOnce sync.Once
+	verifJitterOn   bool
+)
 
 func verifJitter() bool {
-	if verifJitterOn < 0 {
-		verifJitterOn = 0
-		if os.Getenv("VERIF_JITTER") != "" {
-			verifJitterOn = 1
-		}
-	}
-	return verifJitterOn == 1
+	verifJitterOnce.Do(func() { verifJitterOn = os.Getenv("VERIF_JITTER") != "" })
+	return verifJitterOn
 }
 
 // verifWait yields; natively it always reports that somebody else may have run.
 func verifWait() bool {
-	verifWaits++
-	if verifWaits%64 == 0 {
+	n := verifWaits.Add(1)
+	if n%64 == 0 {
 		time.Sleep(50 * time.Microsecond)
 	} else {
 		runtime.Gosched()
 	}
-	return verifWaits < 200000
+	return n < 200000
 }
 
-var verifWaits int
+var verifWaits atomic.Int64
 
 func verifPollContexts() {}
 
